@@ -63,6 +63,9 @@ type Spec struct {
 	BanProbe bool
 	// NoQuiesce: do not wait for quiescence when the download did not complete in MaxWait.
 	NoQuiesce bool
+	// DeleteRestart: after completion the torrent is stopped, its first data file is deleted from the
+	// storage, and it is started again with the same sources (claims keep being recorded)
+	DeleteRestart bool
 }
 
 func (s *Spec) HonestFull() bool {
@@ -218,8 +221,12 @@ func GenSpec(r *rand.Rand, k int, mode string) *Spec {
 		s.Webs = nil
 		s.Peers = []PeerSpec{{Kind: "honest", Fast: r.Intn(2) == 0, Ext: true, Crypto: "auto", Announce: ann[r.Intn(3)], Param: r.Intn(4) + 4*r.Intn(50), ReqQ: []int{1, 1, 2, 5}[r.Intn(4)]}}
 	}
+	if mode == "c01" && !s.Magnet && r.Intn(5) == 0 {
+		s.DeleteRestart = true
+	}
 	if mode == "c01" && r.Intn(6) == 0 {
 		s.BanProbe = true
+		s.DeleteRestart = false
 		s.Magnet = false
 		s.Webs = nil
 		s.Enc = "default"
@@ -572,6 +579,35 @@ func Run(spec *Spec, dir string) *Result {
 		}
 	} else {
 		time.Sleep(30 * time.Millisecond) // let the last have messages reach the peers
+	}
+	if spec.DeleteRestart && res.Completed {
+		t.Stop()
+		if _, ok := sess.WaitStatus(t, 10*time.Second, torrent.Stopped); ok {
+			stq := prov.Get(t.ID())
+			for fi, f := range l.Files {
+				if f.Pad || f.Length == 0 {
+					continue
+				}
+				name := filepath.FromSlash(l.JoinedPath(fi))
+				log.Add("api", "delete-window-begin", 0, 0, 0, name, nil)
+				stq.Delete(name)
+				smu.Lock()
+				sevents = append(sevents, memstore.Event{Seq: evlog.Next(), Kind: "delete", Name: name, Exit: true})
+				smu.Unlock()
+				res.Notes = append(res.Notes, "deleted "+name+" while stopped")
+				break
+			}
+			t.Start()
+			for _, sr := range res.Seeders {
+				t.AddPeer(sr.Addr)
+			}
+			// the client cannot know about the deletion before it has looked at the files again
+			sess.WaitFor(10*time.Second, func() bool { st := t.Stats().Status; return st == torrent.Downloading || st == torrent.Seeding })
+			log.Add("api", "delete-window-end", 0, 0, 0, "", nil)
+			sess.WaitFor(8*time.Second, func() bool { return t.Stats().Status == torrent.Seeding })
+			time.Sleep(50 * time.Millisecond)
+			res.Completed = t.Stats().Status == torrent.Seeding
+		}
 	}
 	close(sampleStop)
 	sampWG.Wait()
